@@ -3444,3 +3444,329 @@ def g_rsrc(rng, wf=True):
 
 def run_rsrc(a, exc_code):
     return run_payload(obj_rsrc, lambda o: c_rsrc_d(rsrc_of_obj(o)), a, {"padding": 1}, {}, wf_rsrc(a), exc_code)
+
+
+# ----------------------------------------------------------------------------- Stage 3 (5): Slices (Psd/Slices.v)
+# slices desc: ["v6", bbox, name units, [slice...]] | ["desc", version, dval desc]
+# slice = [id, group, origin, assoc|None, name, type, bbox, url, target, message, alt, html, text, halign, valign, [a, r, g, b], data|None]
+#         data = [16, dval desc]
+def coq_slices(x):
+    zl = lambda v: coq_list(z, v)
+    blk = lambda b: "(DBlock %s %s)" % (z(b[0]), coq_dval(b[1]))
+    if x[0] == "desc":
+        return "(SlicesDesc %s %s)" % (z(x[1]), blk([16, x[2]]))
+    sl = lambda s: "(mkSlice %s %s %s %s %s %s %s %s %s %s %s %s %s %s %s %s %s)" % (
+        z(s[0]), z(s[1]), z(s[2]), coq_opt(z, s[3]), zl(s[4]), z(s[5]), zl(s[6]), zl(s[7]), zl(s[8]), zl(s[9]), zl(s[10]), z(s[11]),
+        zl(s[12]), z(s[13]), z(s[14]), zl(s[15]), coq_opt(blk, s[16]))
+    return "(SlicesV6 %s %s %s)" % (zl(x[1]), zl(x[2]), coq_list(sl, x[3]))
+
+
+def c_slices_d(x):
+    cz = lambda v: [int(v)]
+    cl = lambda v: c_list(cz, list(v))
+    blk = lambda b: [1, b[0]] + c_dval_d(b[1])
+    if x[0] == "desc":
+        return [x[1]] + blk([16, x[2]])
+    sl = lambda s: [s[0], s[1], s[2]] + c_opt(cz, s[3]) + cl(s[4]) + [s[5]] + cl(s[6]) + cl(s[7]) + cl(s[8]) + cl(s[9]) + cl(s[10]) + \
+        [int(s[11])] + cl(s[12]) + [s[13], s[14]] + cl(s[15]) + c_opt(blk, s[16])
+    return [6] + cl(x[1]) + cl(x[2]) + c_list(sl, x[3])
+
+
+def obj_slices(x):
+    from psd_tools.psd import descriptor as D
+    from psd_tools.psd import image_resources as R
+
+    def blk(b):
+        if b is None:
+            return None
+        body = obj_dval(b[1])
+        return D.DescriptorBlock(version=b[0], items=list(body.items()), name=body.name, classID=body.classID)
+
+    if x[0] == "desc":
+        return R.Slices(x[1], blk([16, x[2]]))
+    U = units_to_str
+    sl = lambda s: R.SliceV6(s[0], s[1], s[2], s[3], U(s[4]), s[5], list(s[6]), U(s[7]), U(s[8]), U(s[9]), U(s[10]),
+                             bool(s[11]) if s[11] in (0, 1) else s[11], U(s[12]), s[13], s[14], s[15][0], s[15][1], s[15][2], s[15][3], blk(s[16]))
+    return R.Slices(6, R.SlicesV6(list(x[1]), U(x[2]), [sl(s) for s in x[3]]))
+
+
+def slices_of_obj(o):
+    S = str_to_units
+    blk = lambda b: None if b is None else [b.version, dval_of_obj(b)]
+    if o.version != 6:
+        return ["desc", o.version, dval_of_obj(o.data)]
+    d = o.data
+    sl = lambda s: [s.slice_id, s.group_id, s.origin, s.associated_id, S(s.name), s.slice_type, [int(v) for v in s.bbox], S(s.url), S(s.target),
+                    S(s.message), S(s.alt_tag), int(s.cell_is_html), S(s.cell_text), s.horizontal_align, s.vertical_align,
+                    [s.alpha, s.red, s.green, s.blue], blk(s.data)]
+    return ["v6", [int(v) for v in d.bbox], S(d.name), [sl(s) for s in d.items]]
+
+
+def slice_probe_class(x):
+    """F-C01-4: a slice without a descriptor block directly followed by a slice whose id is 16"""
+    if x[0] != "v6":
+        return False
+    it = x[3]
+    return any(it[i][16] is None and it[i + 1][0] == 16 for i in range(len(it) - 1))
+
+
+def wf_slices(x, guard=True):
+    okb = lambda b: b[0] == 16 and b[1][0] == "desc" and b[1][1] == OSC["Objc"] and wf_dval(b[1])
+    if x[0] == "desc":
+        return x[1] in (7, 8) and okb([16, x[2]])
+    for s in x[3]:
+        if (s[3] is not None) != (s[2] == 1) or s[11] not in (0, 1):
+            return False
+        if s[16] is not None and not (okb(s[16]) and bytes(s[16][1][3]) != b"\x00\x00\x00\x00"):
+            return False
+    return not (guard and slice_probe_class(x))
+
+
+def g_slices(rng, terms, units, wf=True):
+    def blk():
+        d = g_dval(rng, terms, units, kinds=["desc"])
+        d[1] = OSC["Objc"]
+        if bytes(d[3]) == b"\x00\x00\x00\x00":
+            d[3] = b"null"
+        return d
+
+    if rng.random() < 0.2:
+        return ["desc", rng.choice([7, 8]), blk()]
+    u4 = lambda: g_u(rng, 4)
+    sid = lambda: 16 if rng.random() < 0.3 else rng.choice([0, 1, 15, 17, 2 ** 32 - 1, rng.randrange(64)])
+
+    def sl():
+        origin = rng.choice([0, 1, 2, 2])
+        s = [sid(), rng.choice([0, 1, 2, 3, u4()]), origin, u4() if origin == 1 else None, g_units16(rng), rng.choice([0, 1, 2]),
+             [u4() for _ in range(4)], g_units16(rng), g_units16(rng), g_units16(rng), g_units16(rng), rng.choice([0, 1]), g_units16(rng),
+             rng.randrange(4), rng.randrange(4), [rng.randrange(256) for _ in range(4)], [16, blk()] if rng.random() < 0.35 else None]
+        if not wf and rng.random() < 0.25:
+            m = rng.randrange(3)
+            if m == 0:
+                s[3] = None if s[3] is not None else 3
+            elif m == 1:
+                s[11] = 2
+            elif s[16] is not None:
+                s[16][1][3] = b"\x00\x00\x00\x00"
+        return s
+
+    return ["v6", [u4() for _ in range(4)], g_units16(rng), [sl() for _ in range(rng.choice([0, 1, 2, 3, 5]))]]
+
+
+def run_slices(x, exc_code):
+    """-> (outcome as Corr.slices_outcome, info); the term set is restored afterwards"""
+    from psd_tools.psd import descriptor as D
+
+    t0 = set(D._TERMS)
+    try:
+        return run_payload(obj_slices, lambda o: c_slices_d(slices_of_obj(o)), x, {"padding": 1}, {}, wf_slices(x), exc_code)
+    finally:
+        D._TERMS.clear()
+        D._TERMS.update(t0)
+
+
+# ----------------------------------------------------------------------------- Stage 3 (6): Psd/Misc.v, Psd/Meta.v
+# blk6 desc: ["umask", cid, vals, opacity, flag] | ["sold", pad, kind, version, dval] | ["placed", pad, kind, version, uuid bytes, info (4),
+#            transform (8 double patterns), [version, dval]] | ["tysh", pad, version, transform (6), text_version, text dval, warp_version,
+#            warp dval, box (4)] | ["pixel", pad, [bytes...]] | ["meta", [[sig, key, copy, ["int", v] | ["desc", dval] | ["raw", bytes]]...]] |
+#            ["anno", major, minor, [[head (4), icon (4), popup (4), [cid, vals], author, name, date, marker, data]...]]
+META_INT_KEYS = (fcc(b"mdyn"), fcc(b"sgrp"))
+META_DESC_KEYS = tuple(fcc(k) for k in (b"cust", b"cmls", b"extn", b"mlst", b"tmln", b"sgrp"))
+
+
+def coq_blk6(a):
+    zl = lambda x: coq_list(z, x)
+    blk = lambda d: "(DBlock 16 %s)" % coq_dval(d)
+    t = a[0]
+    if t == "umask":
+        return "(BUserMask %s %s %s %s)" % (z(a[1]), zl(a[2]), z(a[3]), z(a[4]))
+    if t == "sold":
+        return "(BSold %s %s %s %s)" % (z(a[1]), z(a[2]), z(a[3]), blk(a[4]))
+    if t == "placed":
+        return "(BPlaced %s (mkPlaced %s %s %s %s %s (DBlock2 %s 16 %s)))" % (z(a[1]), z(a[2]), z(a[3]), coq_bytes(a[4]), zl(a[5]), zl(a[6]),
+                                                                         z(a[7][0]), coq_dval(a[7][1]))
+    if t == "tysh":
+        return "(BTypeTool %s (mkTySh %s %s %s %s %s %s %s))" % (z(a[1]), z(a[2]), zl(a[3]), z(a[4]), blk(a[5]), z(a[6]), blk(a[7]), zl(a[8]))
+    if t == "pixel":
+        return "(BPixel %s %s)" % (z(a[1]), coq_list(coq_bytes, a[2]))
+    if t == "meta":
+        md = lambda d: "(MInt %s)" % z(d[1]) if d[0] == "int" else "(MDesc %s)" % blk(d[1]) if d[0] == "desc" else "(MRaw %s)" % coq_bytes(d[1])
+        return "(BMeta %s)" % coq_list(lambda m: "(mkMeta %s %s %s %s)" % (z(m[0]), z(m[1]), z(m[2]), md(m[3])), a[1])
+    an = lambda x: "(mkAnno %s %s %s (%s, %s) %s %s %s %s %s)" % (zl(x[0]), zl(x[1]), zl(x[2]), z(x[3][0]), zl(x[3][1]), coq_bytes(x[4]),
+                                                                  coq_bytes(x[5]), coq_bytes(x[6]), z(x[7]), coq_bytes(x[8]))
+    return "(BAnno %s %s %s)" % (z(a[1]), z(a[2]), coq_list(an, a[3]))
+
+
+def c_blk6_d(a):
+    cz = lambda v: [int(v)]
+    cl = lambda v: c_list(cz, list(v))
+    blk = lambda d: [1, 16] + c_dval_d(d)
+    t = a[0]
+    if t == "umask":
+        return [1, a[1]] + cl(a[2]) + [a[3], a[4]]
+    if t == "sold":
+        return [2, a[2], a[3]] + blk(a[4])
+    if t == "placed":
+        return [3, a[2], a[3]] + c_bytes(a[4]) + cl(a[5]) + cl(a[6]) + [2, a[7][0], 16] + c_dval_d(a[7][1])
+    if t == "tysh":
+        return [4, a[2]] + cl(a[3]) + [a[4]] + blk(a[5]) + [a[6]] + blk(a[7]) + cl(a[8])
+    if t == "pixel":
+        return [5] + c_list(c_bytes, a[2])
+    if t == "meta":
+        md = lambda d: [1, d[1]] if d[0] == "int" else [2] + blk(d[1]) if d[0] == "desc" else [3] + c_bytes(d[1])
+        return [6] + c_list(lambda m: [m[0], m[1], int(m[2])] + md(m[3]), a[1])
+    an = lambda x: cl(x[0]) + cl(x[1]) + cl(x[2]) + [x[3][0]] + cl(x[3][1]) + c_bytes(x[4]) + c_bytes(x[5]) + c_bytes(x[6]) + [x[7]] + c_bytes(x[8])
+    return [7, a[1], a[2]] + c_list(an, a[3])
+
+
+def obj_blk6(a):
+    from psd_tools.psd import descriptor as D
+    from psd_tools.psd import tagged_blocks as T
+
+    def blk(d, cls=D.DescriptorBlock, **kw):
+        body = obj_dval(d)
+        return cls(items=list(body.items()), name=body.name, classID=body.classID, **kw)
+
+    b4 = lambda v: v.to_bytes(4, "big")
+    t = a[0]
+    if t == "umask":
+        return T.UserMask(obj_color([a[1], a[2]]), a[3], a[4])
+    if t == "sold":
+        return T.SmartObjectLayerData(b4(a[2]), a[3], blk(a[4], version=16))
+    if t == "placed":
+        return T.PlacedLayerData(b4(a[2]), a[3], bytes(a[4]).decode("macroman"), a[5][0], a[5][1], a[5][2], a[5][3],
+                                 tuple(bits_dbl(x) for x in a[6]), blk(a[7][1], D.DescriptorBlock2, version=a[7][0], data_version=16))
+    if t == "tysh":
+        return T.TypeToolObjectSetting(a[2], tuple(bits_dbl(x) for x in a[3]), a[4], blk(a[5], version=16), a[6], blk(a[7], version=16), *a[8])
+    if t == "pixel":
+        return T.PixelSourceData2([bytes(x) for x in a[2]])
+    if t == "meta":
+        md = lambda d: d[1] if d[0] == "int" else blk(d[1], version=16) if d[0] == "desc" else bytes(d[1])
+        return T.MetadataSettings([T.MetadataSetting(b4(m[0]), b4(m[1]), bool(m[2]) if m[2] in (0, 1) else m[2], md(m[3])) for m in a[1]])
+    M = lambda x: bytes(x).decode("macroman")
+    return T.Annotations(major_version=a[1], minor_version=a[2],
+                         items=[T.Annotation(b4(x[0][0]), x[0][1], x[0][2], x[0][3], list(x[1]), list(x[2]), obj_color(x[3]), M(x[4]), M(x[5]),
+                                             M(x[6]), b4(x[7]), bytes(x[8])) for x in a[3]])
+
+
+def blk6_of_obj(o, pad=4):
+    n = type(o).__name__
+    col = lambda c: [int(getattr(c.id, "value", c.id)), [int(v) for v in c.values]]
+    if n == "UserMask":
+        c = col(o.color)
+        return ["umask", c[0], c[1], o.opacity, o.flag]
+    if n == "SmartObjectLayerData":
+        return ["sold", pad, fcc(o.kind), o.version, dval_of_obj(o.data)]
+    if n == "PlacedLayerData":
+        return ["placed", pad, fcc(o.kind), o.version, o.uuid.encode("macroman"), [o.page, o.total_pages, o.anti_alias, int(o.layer_type)],
+                [dbl_bits(x) for x in o.transform], [o.warp.version, dval_of_obj(o.warp)]]
+    if n == "TypeToolObjectSetting":
+        return ["tysh", pad, o.version, [dbl_bits(x) for x in o.transform], o.text_version, dval_of_obj(o.text_data), o.warp_version,
+                dval_of_obj(o.warp), [o.left, o.top, o.right, o.bottom]]
+    if n == "PixelSourceData2":
+        return ["pixel", pad, [bytes(x) for x in o]]
+    if n == "MetadataSettings":
+        def md(d):
+            if isinstance(d, int):
+                return ["int", d]
+            if hasattr(d, "write"):
+                return ["desc", dval_of_obj(d)]
+            return ["raw", bytes(d)]
+        return ["meta", [[fcc(m.signature), fcc(m.key), int(m.copy_on_sheet), md(m.data)] for m in o]]
+    if n == "Annotations":
+        M = lambda s: s.encode("macroman")
+        return ["anno", o.major_version, o.minor_version,
+                [[[fcc(x.kind), x.is_open, x.flags, x.optional_blocks], [int(v) for v in x.icon_location], [int(v) for v in x.popup_location],
+                  col(x.color), M(x.author), M(x.name), M(x.mod_date), fcc(x.marker), bytes(x.data)] for x in o]]
+    raise KeyError(n)
+
+
+def wf_blk6(a):
+    okd = lambda d: d[0] == "desc" and d[1] == OSC["Objc"] and wf_dval(d)
+    t = a[0]
+    if t == "sold":
+        return a[2] == fcc(b"soLD") and a[3] in (4, 5) and okd(a[4])
+    if t == "placed":
+        return a[3] == 3 and a[5][3] in (0, 1, 2, 3) and okd(a[7][1])
+    if t == "tysh":
+        return a[4] == 50 and a[6] == 1 and okd(a[5]) and okd(a[7])
+    if t == "meta":
+        def ok(m):
+            if m[0] not in (SIG_8BIM, fcc(b"8ELE")) or m[2] not in (0, 1):
+                return False
+            k, d = m[1], m[3]
+            if d[0] == "int":
+                return k in META_INT_KEYS
+            if d[0] == "desc":
+                return k not in META_INT_KEYS and k in META_DESC_KEYS and okd(d[1])
+            return k not in META_INT_KEYS and k not in META_DESC_KEYS
+        return all(ok(m) for m in a[1])
+    if t == "anno":
+        return all(x[0][0] in (fcc(b"txtA"), fcc(b"sndM")) and x[7] in (fcc(b"txtC"), fcc(b"sndM")) for x in a[3])
+    return True
+
+
+def has_engine_data(a):
+    return a[0] == "tysh" and any(bytes(k) == b"EngineData" for k, _ in a[5][4])
+
+
+def g_blk6(rng, terms, units, wf=True):
+    def dv():
+        d = g_dval(rng, terms, units, kinds=["desc"])
+        d[1] = OSC["Objc"]
+        d[4] = [kv for kv in d[4] if bytes(kv[0]) != b"EngineData"]
+        return d
+
+    u4 = lambda: g_u(rng, 4)
+    i4 = lambda: rng.choice([-2 ** 31, -1, 0, 1, 2 ** 31 - 1, rng.randint(-2 ** 31, 2 ** 31 - 1)])
+    pad = rng.choice([1, 4])
+    data = lambda: bytes(rng.randrange(256) for _ in range(rng.choice([0, 1, 2, 3, 4, 9, 40])))
+    nm = lambda: bytes(rng.randrange(256) for _ in range(rng.choice([0, 1, 2, 5, 30, 255])))
+    bad = (not wf) and rng.random() < 0.5
+    t = rng.randrange(7)
+    if t == 0:
+        c = g_color(rng)
+        return ["umask", c[0], c[1], g_u(rng, 2), rng.choice([0, 128, 255])]
+    if t == 1:
+        return ["sold", pad, fcc(b"soLD"), rng.choice([4, 5]), dv()]
+    if t == 2:
+        return ["placed", pad, rng.choice([fcc(b"plcL"), u4()]), 3, nm(), [u4(), u4(), u4(), rng.choice([0, 1, 2, 3])],
+                [g_dbl_bits(rng) for _ in range(8)], [rng.choice([1, 0, u4()]), dv()]]
+    if t == 3:
+        return ["tysh", pad, g_u(rng, 2), [g_dbl_bits(rng) for _ in range(6)], 50, dv(), 1, dv(), [i4() for _ in range(4)]]
+    if t == 4:
+        return ["pixel", pad, [data() for _ in range(rng.choice([0, 1, 2, 5]))]]
+    if t == 5:
+        def m():
+            r = rng.random()
+            sg = rng.choice([SIG_8BIM, fcc(b"8ELE")])
+            cp = rng.choice([0, 1]) if not bad else rng.choice([0, 1, 2])
+            if r < 0.3:
+                k, d = rng.choice(META_INT_KEYS), ["int", u4()]
+            elif r < 0.65:
+                k, d = rng.choice(META_DESC_KEYS[:5]), ["desc", dv()]
+            else:
+                k, d = rng.choice([fcc(b"abcd"), 0, u4()]), ["raw", data()]
+                if k in META_INT_KEYS or k in META_DESC_KEYS:
+                    k = fcc(b"zzzz")
+            if bad and rng.random() < 0.5:
+                k = rng.choice(list(META_INT_KEYS) + list(META_DESC_KEYS) + [fcc(b"abcd")])
+            return [sg, k, cp, d]
+        return ["meta", [m() for _ in range(rng.choice([0, 1, 2, 4]))]]
+
+    def an():
+        return [[rng.choice([fcc(b"txtA"), fcc(b"sndM")]), rng.randrange(256), rng.randrange(256), g_u(rng, 2)], [i4() for _ in range(4)],
+                [i4() for _ in range(4)], g_color(rng), nm(), nm(), nm(), rng.choice([fcc(b"txtC"), fcc(b"sndM")]), data()]
+    return ["anno", g_u(rng, 2), g_u(rng, 2), [an() for _ in range(rng.choice([0, 1, 2, 3]))]]
+
+
+def run_blk6(a, exc_code):
+    from psd_tools.psd import descriptor as D
+
+    t0 = set(D._TERMS)
+    pad = a[1] if a[0] in ("sold", "placed", "tysh", "pixel") else 4
+    try:
+        return run_payload(obj_blk6, lambda o: c_blk6_d(blk6_of_obj(o, pad)), a, {"padding": pad}, {}, wf_blk6(a), exc_code)
+    finally:
+        D._TERMS.clear()
+        D._TERMS.update(t0)
